@@ -78,15 +78,25 @@ theorem accept_implies_entitled_config (f : Forest) (m : Method) (c : Ctx)
   rw [hm]
   exact ⟨hb, hc⟩
 
-/-- A command is executed only for an authenticated endpoint of the receiver's own zone or a zone above
-    it (the code admits only the direct parent), and only with `accept_commands`. -/
+/-- A command is executed — or forwarded towards the node it names — only for an authenticated endpoint of
+    the receiver's own zone or a zone above it (the code admits only the direct parent), and executed only
+    with `accept_commands`. -/
 theorem accept_implies_entitled_command (f : Forest) (m : Method) (c : Ctx)
     (hm : m.cls = .command) (h : accepts f m c = true) : Entitled f m c := by
   cases m <;> simp [Method.cls] at hm
-  simp [accepts] at h
-  obtain ⟨ez, he, hb⟩ := guardCommandSender_sender f h.1.1
+  simp only [accepts, Bool.and_eq_true] at h
+  obtain ⟨ez, he, hb⟩ := guardCommandSender_sender f h.1
   obtain ⟨ha, hz⟩ := endpoint_some he
-  exact Or.inr ⟨ha, ez, hz, hb, h.2⟩
+  refine Or.inr ⟨ha, ez, hz, hb, ?_⟩
+  cases hf : c.forwardZone with
+  | none => simp only [hf, Bool.and_eq_true] at h; exact Or.inr h.2.2
+  | some tz => exact Or.inl rfl
+
+/-- A command is forwarded only towards the receiver's own zone or a zone below it. -/
+theorem forwarded_only_downwards (f : Forest) (c : Ctx) (tz : Zone) (hf : c.forwardZone = some tz)
+    (h : accepts f .executeCommand c = true) : Below f tz c.localZone := by
+  simp only [accepts, hf, Bool.and_eq_true] at h
+  exact isChildOf_sound f _ _ h.2
 
 /-- Version/capabilities/log position/heartbeat: only for an authenticated, configured endpoint. -/
 theorem accept_implies_entitled_session (f : Forest) (m : Method) (c : Ctx)
@@ -194,7 +204,7 @@ theorem not_below_master_satellite : ¬ Below exForest 0 1 := by
     HA peer (zone 1), no `originZone` in the message. -/
 def exPeerNoOrigin : Ctx :=
   { authenticated := true, endpointZone := some 1, originZone := none, localZone := 1, objExists := true,
-    objZone := some 0, senderIsCommandEndpoint := false, execEndpointZone := none,
+    objZone := some 0, senderIsCommandEndpoint := false, execEndpointZone := none, forwardZone := none,
     acceptConfig := false, acceptCommands := false }
 
 /-- **F-C13a.**  The full statement fails: accepted, although the object is in the parent zone of the
@@ -240,7 +250,7 @@ theorem own_zone_sender_is_not_checked (f : Forest) (m : Method) (c : Ctx)
 /-- An anonymous connection (certificate not verified) sends `pki::UpdateCertificate`. -/
 def exAnonymous : Ctx :=
   { authenticated := false, endpointZone := none, originZone := none, localZone := 1, objExists := true,
-    objZone := none, senderIsCommandEndpoint := false, execEndpointZone := none,
+    objZone := none, senderIsCommandEndpoint := false, execEndpointZone := none, forwardZone := none,
     acceptConfig := false, acceptCommands := false }
 
 /-- **anonymous_only_certificate** (full).  A connection without authenticated, configured endpoint gets
@@ -255,7 +265,7 @@ theorem anonymous_only_certificate (f : Forest) (m : Method) (c : Ctx)
     from the satellite zone for a comment that belongs to the master zone (refused since cc1e22f). -/
 def exRemoval : Ctx :=
   { authenticated := true, endpointZone := some 1, originZone := none, localZone := 2, objExists := true,
-    objZone := some 0, senderIsCommandEndpoint := false, execEndpointZone := none,
+    objZone := some 0, senderIsCommandEndpoint := false, execEndpointZone := none, forwardZone := none,
     acceptConfig := false, acceptCommands := false }
 
 /-! ## Refusal -/
@@ -292,7 +302,7 @@ theorem entitledB_sound (f : Forest) (m : Method) (c : Ctx) (h : entitledB f m c
         | some xz => simp only [hx] at h; exact ⟨xz, rfl, belowB_sound f _ _ _ h⟩
       · simpa using h
       · simp only [Bool.and_eq_true] at h; exact ⟨belowB_sound f _ _ _ h.1, h.2⟩
-      · simp only [Bool.and_eq_true] at h; exact ⟨belowB_sound f _ _ _ h.1, h.2⟩
+      · simp only [Bool.and_eq_true, Bool.or_eq_true] at h; exact ⟨belowB_sound f _ _ _ h.1, h.2⟩
       · exact belowB_sound f _ _ _ h
 
 /-! ## Non-vacuity -/
@@ -301,7 +311,7 @@ theorem entitledB_sound (f : Forest) (m : Method) (c : Ctx) (h : entitledB f m c
     sends `event::SetAcknowledgement` for a host of the agent zone (2) to the satellite (1) … -/
 def exFromMaster : Ctx :=
   { authenticated := true, endpointZone := some 0, originZone := none, localZone := 1, objExists := true,
-    objZone := some 2, senderIsCommandEndpoint := false, execEndpointZone := some 2,
+    objZone := some 2, senderIsCommandEndpoint := false, execEndpointZone := some 2, forwardZone := none,
     acceptConfig := true, acceptCommands := true }
 
 example : accepts exForest .setAcknowledgement exFromMaster = true := by decide
@@ -317,6 +327,12 @@ example : accepts exForest .setSuppressedNotifications exFromMaster = false := b
 example : accepts exForest .setSuppressedNotifications { exFromMaster with endpointZone := some 1 } = true := by decide
 example : accepts exForest .configUpdateObject { exFromMaster with acceptConfig := false } = false := by decide
 example : accepts exForest .executeCommand { exFromMaster with endpointZone := some 2 } = false := by decide
+/-- forwarding: from the master towards the agent zone yes (also without accept_commands), from the agent zone
+    towards anything no, towards the master zone no -/
+example : accepts exForest .executeCommand { exFromMaster with forwardZone := some 2, acceptCommands := false } = true := by decide
+example : accepts exForest .executeCommand { exFromMaster with endpointZone := some 2, forwardZone := some 2 } = false := by decide
+example : accepts exForest .executeCommand { exFromMaster with forwardZone := some 0 } = false := by decide
+example : specStep exForest .executeCommand { exFromMaster with endpointZone := some 2, forwardZone := some 2 } ⟨false, false, true, false⟩ = some .appliedOnlyIfEntitled := by decide
 /-- the two repaired guards refuse their former witnesses; the legitimate senders are still accepted -/
 example : accepts exForest .updateCertificate exAnonymous = false := by decide
 example : accepts exForest .updateCertificate exFromMaster = true := by decide
